@@ -173,6 +173,8 @@ type State struct {
 	cnt      map[string]T
 	lastArgs map[string][]Value
 	lastRes  map[string]Value
+	calleeGhosts map[string]map[string]T
+	lastCalleeGhost map[string]T
 	locks    []LockHeld
 	acq      *Snapshot
 	entry    *Snapshot
@@ -208,6 +210,11 @@ func (s *State) clone() *State {
 	for k, v := range s.lastArgs {
 		n.lastArgs[k] = v
 	}
+	n.calleeGhosts = make(map[string]map[string]T, len(s.calleeGhosts))
+	for k, v := range s.calleeGhosts {
+		n.calleeGhosts[k] = v
+	}
+	n.lastCalleeGhost = s.lastCalleeGhost
 	n.lastRes = make(map[string]Value, len(s.lastRes))
 	for k, v := range s.lastRes {
 		n.lastRes[k] = v
@@ -263,6 +270,19 @@ func (s *State) assume(t T) {
 	}
 }
 
+// definitional assumptions only constrain symbols that are fresh at the point
+// where they are made (definitions of named terms, facts describing a fresh
+// heap after append/copy/havoc, allocation of a fresh reference).  They may be
+// hoisted out of a disjunction when states are merged.
+var definitional = map[string]bool{}
+
+func (s *State) assumeDef(t T) {
+	if t.S != "true" {
+		s.pc = append(s.pc, t)
+		definitional[t.S] = true
+	}
+}
+
 // ---------------------------------------------------------------- heaps
 
 type heapView struct {
@@ -294,7 +314,7 @@ func (u *Unit) heapSet(s *State, name string, t T) {
 	u.noteHeap(name, t.Sort)
 	if strings.HasPrefix(t.S, "(") && !strings.HasPrefix(t.S, "((as const") {
 		c := u.fresh(name+"@s", t.Sort)
-		s.assume(Eq(c, t))
+		s.assumeDef(Eq(c, t))
 		t = c
 	}
 	s.heaps[name] = t
@@ -361,8 +381,8 @@ func (u *Unit) assumeTypeInv(s *State, v T, t types.Type) {
 func (u *Unit) newRef(s *State, prefix string) T {
 	r := u.fresh(prefix, SInt)
 	al := u.heapGet(s.view(), "alloc", ArrSort(SInt, SBool))
-	s.assume(Not(Select(al, r)))
-	s.assume(Lt(IntLit(0), r))
+	s.assumeDef(Not(Select(al, r)))
+	s.assumeDef(Lt(IntLit(0), r))
 	u.heapSet(s, "alloc", Store(al, r, True))
 	return r
 }
@@ -411,4 +431,13 @@ func (s *State) escape(t T) {
 		}
 	}
 	s.private = keep
+}
+
+func (c *Cell) elemSort(u *Unit) string {
+	if c.typ != nil {
+		if st, ok := c.typ.Underlying().(*types.Slice); ok {
+			return string(u.sortOf(st.Elem()))
+		}
+	}
+	return "Int"
 }
